@@ -150,5 +150,18 @@ def check(cx):
     if not okc:
         r3.violation('ChannelDefaultModes::new_from_modes_and_cleanup|fields', 'the configured rank lists are not moved one-to-one into '
                      'default_modes', loc=fcl)
+    r3.instance('the configured rank lists (default_modes) are never written after construction')
+    for fn_, e in census:
+        tgt = None
+        if e.kind == 'call' and e.data.get('args') and e.data['name'] in MUTATORS | {'take'} and 'default_modes' in path_of(e.data['args'][0]):
+            tgt = e.data['name']
+        if e.kind == 'assign' and not e.data.get('init') and 'default_modes' in path_of(e.data['lhs']):
+            tgt = 'assignment'
+        if e.kind == 'call' and e.data.get('local') and e.data.get('args') and path_of(e.data['args'][0])[-1:] == ['default_modes'] and \
+                local_mut_self(prog, e.data['callee']):
+            tgt = e.data['name']
+        if tgt and base_fn(fn_) not in ('new_from_config', 'new_from_modes_and_cleanup', 'new_on_user_join'):
+            r3.violation('%s|writes-default_modes|%s' % (base_fn(fn_), tgt), 'the configured rank lists of a channel are changed after start-up '
+                         '(%s in %s): the listed nicknames no longer get their rank whenever they join' % (tgt, base_fn(fn_)), loc=cx.loc(e.node))
     r3b = cx.rule('R16.3b', 'configured ranks granted on join (sibling agreement)', floor=20, kind='sibling-agreement')
     check_rank_siblings(cx, r3b)
